@@ -43,7 +43,7 @@ def setlin(v, l):
         return w
     return v
 
-NONLIN_FUNCS = {"abs", "fabs", "sign", "sqrt", "log", "log10", "arctan2", "norm", "prod", "det", "inv", "round", "max", "min", "amax", "amin", "sort", "unique", "ptp", "median"} | DIMLESS_FUNCS
+NONLIN_FUNCS = {"hypot", "maximum", "minimum", "fmax", "fmin", "clip", "square", "cbrt", "reciprocal", "power", "float_power", "floor", "ceil", "rint", "trunc", "fix", "argmax", "argmin", "argsort", "abs", "fabs", "sign", "sqrt", "log", "log10", "arctan2", "norm", "prod", "det", "inv", "round", "max", "min", "amax", "amin", "sort", "unique", "ptp", "median"} | DIMLESS_FUNCS
 PRODUCT_FUNCS = {"cross", "dot", "matmul", "einsum", "outer"}
 
 class LinDimDomain(DimDomain):
